@@ -32,7 +32,7 @@ RULE = (
     "round trip through a file after a restart or one minimal-format round trip"
 )
 LEVEL_TEXT = (
-    "Seeded stateful histories through the storage seam with process restarts (only files survive), randomised format threshold, ZANJ layout knobs and clock; every loaded dataset is compared value by value (canonicalised arrays, config fields, collected-metadata counts) with a plain-data model recorded before the operation. Sampling, not proof.",
+    "Seeded stateful histories through the storage seam with process restarts (only files survive), randomised format threshold, ZANJ layout knobs and clock; every loaded dataset is compared value by value (canonicalised arrays, config fields, collected-metadata counts) with a plain-data model recorded before the operation. Inputs include hand-assembled datasets (stale counts, stripped or collected metadata, shared and re-ordered maze objects of reloaded datasets), grids wider than 128 cells kept cheap, endpoint lists long enough to be stored as external archive members, collections built with shared and with copied member configurations, every format written through the disk seam, saved forms loaded twice; one interpreter slot in three runs under python -O. Sampling, not proof.",
     "Trusted: stdlib zipfile/NumPy; the storage seam is fault-free here (faults are C11's business).",
 )
 
